@@ -135,7 +135,19 @@ func cat(xs ...[]op) []op {
 	return out
 }
 
-var lives = []string{"fresh", "clone", "clone-then-config", "changed", "switch", "clone-reconfig", "fork"}
+var lives = []string{"fresh", "clone", "clone-then-config", "changed", "switch", "clone-reconfig", "fork", "usertls"}
+
+// configurations of caller-supplied TLS functions (SetDialTLS / SetTLSHandshake)
+var userSpecs = []tlsSpec{
+	{Roots: []int{1}, Next: []string{"h2", "http/1.1"}},
+	{Roots: []int{1}, Next: []string{"http/1.1"}},
+	{Roots: []int{2}, Next: []string{"h2", "http/1.1"}},
+	{Skip: true},
+	{Roots: []int{1}, Next: []string{"h2"}},
+	{Roots: []int{1}, SName: "other.test", Next: []string{"http/1.1", "h2"}},
+	{Roots: []int{1}, SName: "c12.test", Certs: []int{3}, Next: []string{"h2", "http/1.1"}},
+	{Skip: true, Certs: []int{3}, Next: []string{"http/1.1", "h2"}},
+}
 
 // the structured matrix
 func matrix(specs []srvSpec) []cell {
@@ -186,6 +198,26 @@ func matrix(specs []srvSpec) []cell {
 								// the original already carries non-default settings and connections; the clone is re-configured
 								ops = cat(tlsOps(setter, other.T, nil), po, reqs(1), []op{{K: "clone"}},
 									tlsOps(setter, ts.T, &other.T), reqs(2))
+							case "usertls":
+								// the caller brings his own TLS for HTTP/1 and HTTP/2 (documented bypass of TLSClientConfig;
+								// HTTP/3 stays under the client's settings): protocol selection must still hold, TCP
+								// handshakes are governed by the caller's configuration, QUIC ones by the client's
+								us := userSpecs[(si*3+ti+force)%len(userSpecs)]
+								kind := []string{"dialtls", "handshake"}[(si+ti+force)%2]
+								on := []op{{K: kind, TLS: &us}}
+								off := []op{{K: kind, TLS: &tlsSpec{Nil: true}}}
+								switch (si + 2*ti + force) % 4 {
+								case 0:
+									ops = cat(tlsOps(setter, ts.T, nil), po, on, reqs(3))
+								case 1: // switched on after first use, then off again
+									ops = cat(tlsOps(setter, ts.T, nil), po, reqs(1), on, reqs(2), off, []op{{K: "closeidle"}}, reqs(1))
+								case 2: // inherited by a clone
+									ops = cat(tlsOps(setter, ts.T, nil), on, po, []op{{K: "clone"}}, reqs(2))
+								case 3: // both hooks: DialTLSContext wins
+									us2 := userSpecs[(si+ti+force+3)%len(userSpecs)]
+									ops = cat(tlsOps(setter, ts.T, nil), po, []op{{K: "handshake", TLS: &us2}, {K: "dialtls", TLS: &us}}, reqs(2),
+										[]op{{K: "dialtls", TLS: &tlsSpec{Nil: true}}, {K: "closeidle"}}, reqs(2))
+								}
 							case "fork":
 								// a differently configured clone is used and dropped; the original must not notice
 								acts := []*op{nil, {K: "settls", TLS: &other.T}, {K: "skip", B: !ts.T.Skip}, {K: "root", N: 1},
@@ -320,7 +352,14 @@ func randomWalk(rng *hk.Rand, specs []srvSpec) cell {
 				ops = append(ops, op{K: "fork", F: hk.Pick(rng, acts)})
 			}
 		case k < 14:
-			ops = append(ops, op{K: "closeidle"})
+			switch rng.Intn(4) {
+			case 0:
+				ops = append(ops, op{K: hk.Pick(rng, []string{"dialtls", "handshake"}), TLS: &userSpecs[rng.Intn(len(userSpecs))]})
+			case 1:
+				ops = append(ops, op{K: hk.Pick(rng, []string{"dialtls", "handshake"}), TLS: &tlsSpec{Nil: true}})
+			default:
+				ops = append(ops, op{K: "closeidle"})
+			}
 		case k < 15:
 			ops = append(ops, op{K: "skip", B: rng.Bool()})
 		case k < 16:
